@@ -131,8 +131,8 @@ def scenario(ctx, rng, j):
     n = rng.choice((1, 1, 2, 2, 3, 3, 4, 5, 6))
     seeds = [rbytes(rng, 32) for _ in range(n + 1)]      # 0 = root
     pks = [sigmsg.pubkey(s) for s in seeds]
-    fields = {'sigfield1': rbytes(rng, rng.choice((1, 20))),
-              'sigfield3': rbytes(rng, 8)}
+    from ..gen import auth as _auth
+    fields = _auth.sigfields(rng, must=(1, 3))
     allowed = rng.choice((0, 0, 1, 4, 5, 0xff))
     f = rng.choice([x for x in (0, 1, 4, 5) if not (x & ~allowed & 0xff)])
     a_hex, f_hex = f'{allowed:02x}', f'{f:02x}'
